@@ -212,6 +212,10 @@ WindowOK(in, res, keys, m, lim, ties, idc) ==
                   \* in the sorted order sorts strictly after the last returned row
         /\ (k > base => base > 0 /\ \A i \in base..k : Tie(res[i], res[base], keys))
         /\ (k > 0 /\ base > 0) => \A j \in 1..Len(out) : Precedes(res[1], out[j], keys) => Precedes(res[k], out[j], keys)
+        \* and no row that ties with the last returned row is left out, except rows the OFFSET skipped
+        \* (found too weak by RelJudge: <<r1>> was accepted for LIMIT 1 WITH TIES over two equal keys)
+        /\ (k > 0 /\ base > 0) =>
+              Cardinality({j \in 1..Len(out) : Precedes(out[j], res[k], keys) \/ Tie(out[j], res[k], keys)}) <= sk
 
 -----------------------------------------------------------------------------
 (* 6. Analytic functions (C17): per partition, per ordered partition, per frame *)
